@@ -97,9 +97,9 @@ def jobs(tier):
     A(lambda: L.mk_mcpwm(2))
     A(lambda: L.mk_uptime(), max_states=300 if quick else 5000)
     A(lambda: L.UartTopInst(2, 2, alphabet=L.prod((0, 1), (1, 2), (0,), (0, 1), (0, 1), (3, 4), (0, 1))), heavy=True,
-      max_states=150 if quick else 20000)
+      max_states=150 if quick else 3000)
     A(lambda: L.UartTopInst(3, 2, rx_we=True, alphabet=L.prod((0, 1), (1,), (0, 1), (0, 1), (0, 1), (3,), (0, 1))),
-      heavy=True, max_states=250 if quick else 20000)
+      heavy=True, max_states=250 if quick else 4000)
     A(lambda: L.SpiMasterInst(3, True, spi_alphabet(3, 3, words=(5,), cs=((1, 0), (2, 0), (3, 0), (0, 0), (2, 1))), ncs=2,
                               tag="/div3"), heavy=True, max_states=1200 if quick else 120000)
     A(lambda: L.SpiMasterInst(5, False, spi_alphabet(5, 2, lengths=(1, 4, 5), words=(0x15,)), tag="/div2"), heavy=True,
@@ -263,6 +263,13 @@ def i2c_busy_witness():
 
 
 def probes(ctx):
+    try:
+        return _probes(ctx)
+    except Exception as e:       # a changed implementation that no longer builds / runs: reported, not a crash
+        return [(F_WD0, True, "probe raised %r" % (e,)), (F_I2C, True, "probe raised %r" % (e,))]
+
+
+def _probes(ctx):
     out = []
     # fixed 7ecbeb8: Watchdog(crg_rst=..., reset_delay=0) drove crg_rst high from the reset state, watchdog never
     # enabled.  Witness: control register all 0 for 6 cycles, then enabled without reset mode until it times out.
